@@ -132,6 +132,7 @@ type FnResult struct {
 	Secs       float64
 	sweep      bool
 	SafetyTag  string
+	Retried    bool
 }
 
 type VerifyOpts struct {
@@ -185,6 +186,7 @@ func (x *Exec) verifyEntry(fn *ssa.Function, con *FnContract) {
 	st := &State{pc: tTrue, cells: map[cellKey]Value{}, heap: Heap{}, alloc: c.Const("alloc0", SInt), defs: []defSrc{{tTrue, 0, nil}}}
 	c.AddFact(tTrue, mk(SBool, ">=", st.alloc, intLit(0)), "alloc0")
 	fr := &frame{x: x, fn: fn, inst: 0, prefix: shortName(fn), con: con, params: map[string]Value{}}
+	x.root = fr
 	regs := map[ssa.Value]Value{}
 	for i, p := range fn.Params {
 		v := c.FreshValue("p."+p.Name(), p.Type(), tTrue)
@@ -247,10 +249,20 @@ func (x *Exec) verifyEntry(fn *ssa.Function, con *FnContract) {
 	fr.entrySt = st.clone()
 	x.root = fr
 	fr.regs = regs
-	vals, out := x.runSeeded(fr, st)
-	if out == nil {
+	_, mergedOut := x.runSeeded(fr, st)
+	if mergedOut == nil {
 		return
 	}
+	// postconditions are checked at every return point separately (smaller queries than
+	// on the merged exit state)
+	for _, rp := range fr.retPoints {
+		x.exitPos = rp.pos
+		x.c.curBlk = rp.blk
+		x.exitObligations(fr, fn, con, pkg, recvInv, rp.val, rp.st)
+	}
+}
+
+func (x *Exec) exitObligations(fr *frame, fn *ssa.Function, con *FnContract, pkg *types.Package, recvInv bool, vals []Value, out *State) {
 	post := &Env{x: x, st: out, old: fr.entrySt, vars: map[string]Value{}, pkg: pkg, ovars: fr.params}
 	for k, v := range fr.params {
 		post.vars[k] = v
@@ -266,7 +278,7 @@ func (x *Exec) verifyEntry(fn *ssa.Function, con *FnContract) {
 			if tag == "" {
 				tag = x.p.cs.TypeInvTag(x.typeInvOf(fn.Params[0].Type()))
 			}
-			x.oblige(fr, out, "typeinv", "exit", fn.Pos(), t, "property", tag)
+			x.oblige(fr, out, "typeinv", "exit", x.exitPos, t, "property",tag)
 		}
 	}
 	if con != nil {
@@ -278,7 +290,7 @@ func (x *Exec) verifyEntry(fn *ssa.Function, con *FnContract) {
 				o.Notes = append(o.Notes, "clause does not resolve: "+err.Error())
 				continue
 			}
-			o := x.oblige(fr, out, "ensures", fmt.Sprintf("%d", cl.Ord), fn.Pos(), t, "property", cl.Tag)
+			o := x.oblige(fr, out, "ensures", fmt.Sprintf("%d", cl.Ord), x.exitPos, t, "property",cl.Tag)
 			o.Notes = append(o.Notes, cl.Src)
 		}
 		if con.HasMod && !con.ModAny {
@@ -357,7 +369,7 @@ func (cs *Contracts) TypeInvTag(ti *TypeInv) string {
 // ---------------------------------------------------------------------------
 // solving with Houdini filtering of candidate invariants
 
-func solveAll(res *FnResult, timeout time.Duration) {
+func solveAll(res *FnResult, timeout, candTimeout time.Duration) {
 	if res.c == nil {
 		return
 	}
@@ -379,7 +391,7 @@ func solveAll(res *FnResult, timeout time.Duration) {
 						extra = append(extra, not(cd.guard))
 					}
 				}
-				script := c.Script(o.snap, o.pc, o.goal, extra, true)
+				script := c.Script(o.snap, o.pc, o.goal, extra, true, o.exclude...)
 				o.Result = Solve(script, tmo)
 				o.script = script
 			}(o)
@@ -402,7 +414,7 @@ func solveAll(res *FnResult, timeout time.Duration) {
 				todo = append(todo, o)
 			}
 		}
-		run(todo, min(timeout, 2*time.Second))
+		run(todo, candTimeout)
 		changed := false
 		for _, o := range todo {
 			if o.Result.Verdict != "unsat" && res.Cands[o.candID].active {
@@ -473,7 +485,7 @@ func cmdFn(args []string) int {
 	sort.Slice(fns, func(i, j int) bool { return fnKey(fns[i]) < fnKey(fns[j]) })
 	for _, fn := range fns {
 		res := p.VerifyFn(fn, VerifyOpts{Sweep: *sweep})
-		solveAll(res, time.Duration(*tmo)*time.Second)
+		solveAll(res, time.Duration(*tmo)*time.Second, 2*time.Second)
 		printResult(res, *verbose, *dump)
 	}
 	return 0
